@@ -98,6 +98,9 @@ func nowOf(line []byte) int {
 // VERIF_CORRUPT=n flips one expected field of the n-th case of each kind.
 var corrupt = abs.EnvInt("VERIF_CORRUPT", 0)
 
+// VERIF_CORRUPT_TRACE=n corrupts one logged field of the n-th recorded event (the trace validator must reject).
+var corruptTrace = abs.EnvInt("VERIF_CORRUPT_TRACE", 0)
+
 type driver struct {
 	res     *abs.Result
 	rnd     *rand.Rand
@@ -627,7 +630,7 @@ func TestC03(t *testing.T) {
 		synctest.Test(t, func(t *testing.T) {
 			_, n := abs.RecordRingMerges(abs.RingRecorder{N: abs.EnvInt("VERIF_TN", 12), M: abs.EnvInt("VERIF_TM", 24), Replicas: 3,
 				Steps: abs.EnvInt("VERIF_TSTEPS", 400), MaxNow: abs.EnvInt("VERIF_TMAXNOW", 60), SharedPct: 15, Seed: abs.Seed()*7919 + 11,
-				Path: filepath.Join(traceDir, "ring_trace.ndjson"), SigPrefix: "ring:trace", Corrupt: corrupt}, res)
+				Path: filepath.Join(traceDir, "ring_trace.ndjson"), SigPrefix: "ring:trace", Corrupt: corruptTrace}, res)
 			res.AddExtra("ring_trace_events", n)
 		})
 		synctest.Test(t, func(t *testing.T) { recordPart(dr, traceDir) })
